@@ -74,6 +74,29 @@ def gen(seed, tier):
         if rng.random() < 0.2:
             # the source's top rank is declared uncompressed: the loop is offered every coordinate of its shape
             case.update({"fmtA": "U", "shapeA": n})
+            if d >= 1 and rng.random() < 0.6:
+                # per-rank formats (any mixture, at least one U), extents declared or only estimated: an
+                # estimated rank extent is the largest coordinate stored anywhere in that rank, plus one
+                fm = [rng.choice("CU") for _ in range(d + 1)]
+                if "U" not in fm:
+                    fm[rng.randrange(d + 1)] = "U"
+                case["fmtA"] = fm
+                if rng.random() < 0.5:
+                    case["shapeA"] = [n] * (d + 1)
+                    case["declaredA"] = True
+                else:
+                    ext = [0] * (d + 1)
+
+                    def walk(t, k):
+                        for c, p in t:
+                            ext[k] = max(ext[k], c + 1)
+                            if k < d:
+                                walk(p, k + 1)
+                    walk(a, 0)
+                    case["shapeA"] = ext
+                    case["declaredA"] = False
+                yield case
+                continue
             if d == 0 and rng.random() < 0.5:
                 # ... and the source fiber is a detached copy that carries the declaration in its own rank attributes
                 case["detachA"] = True
@@ -99,7 +122,12 @@ def run(case):
     if case["kind"] == "owned":
         ids = [f"R{d - k}" for k in range(d + 1)]
         tz = ft.Tensor.fromFiber(rank_ids=ids, fiber=z, default=dflt)
-        if case.get("fmtA") == "U":
+        if isinstance(case.get("fmtA"), list):
+            ta = ft.Tensor.fromFiber(rank_ids=ids, fiber=a, default=dflt,
+                                     **({"shape": case["shapeA"]} if case.get("declaredA") else {}))
+            for rid, fm in zip(ids, case["fmtA"]):
+                ta.setFormat(rid, fm)
+        elif case.get("fmtA") == "U":
             ta = ft.Tensor.fromFiber(rank_ids=ids, fiber=a, shape=[case["shapeA"]] * (d + 1), default=dflt)
             ta.setFormat(ids[0], "U")
         else:
